@@ -527,6 +527,17 @@ pub mod varc {
         pub fn strong_count(this: &Arc<T>) -> usize {
             this.inner().strong.load(Ordering::SeqCst)
         }
+        /// std's `Arc::into_inner`: the value, if this was the last strong reference
+        pub fn into_inner(this: Arc<T>) -> Option<T> {
+            let this = ManuallyDrop::new(this);
+            if this.inner().strong.fetch_sub(1, Ordering::Release) != 1 {
+                return None;
+            }
+            fence(Ordering::Acquire);
+            let value = unsafe { ManuallyDrop::take(&mut *this.inner().data.get()) };
+            drop(Weak { ptr: this.ptr });
+            Some(value)
+        }
     }
 
     impl<T> From<T> for Arc<T> {
